@@ -15,6 +15,7 @@ import (
 	"runtime/debug"
 	"sort"
 	"strconv"
+	"strings"
 	"sync"
 	"testing"
 	"time"
@@ -265,7 +266,11 @@ func (r *Run) Finish() {
 		r.t.Logf("verifkit result (VERIF_OUT unset):\n%s", b)
 		return
 	}
-	p := filepath.Join(r.out, r.ID+"."+r.Part+".json")
+	name := r.ID + "." + r.Part
+	if sh := os.Getenv("VERIF_SHARD"); sh != "" {
+		name += ".shard" + strings.ReplaceAll(sh, "/", "of")
+	}
+	p := filepath.Join(r.out, name+".json")
 	if err := os.WriteFile(p, b, 0o644); err != nil {
 		r.t.Fatalf("verifkit: %v", err)
 	}
